@@ -51,7 +51,9 @@ Definition example_ops : list op :=
    OAppend 0 0; OAppend 0 2; OInsert 0 3 9;        (* message 0: enum sig 0, std 2 (4 bits), std 3 (3 bits) at 9 *)
    OAppend 1 1; OAppend 1 4;                        (* message 1: enum sig 1, std 4 (2 bits) *)
    OAddValue 0 3;                                   (* the shared enum grows from 1 to 2 bits *)
-   OSetType 2 5; OShiftL 0 3 1; OCompact 0; OResize 0 2; OSetMinSize 0 1].
+   OSetType 2 5; OShiftL 0 3 1; OCompact 0; OResize 0 2; OSetMinSize 0 1;
+   OResizeBus 0 16 8;                               (* refused by the bus *)
+   OResizeBus 0 3 8; ORename 2].
 
 Example example_ok : ok_hist_f example_ops.
 Proof.
@@ -74,8 +76,14 @@ Proof.
   hist_step; [no_followers|].
   do 3 hist_step.
   hist_step; [intros x Hx Ha; vm_compute; discriminate|].
-  hist_step.
+  do 4 hist_step.
 Qed.
+
+(* on a bus that allows 8 bytes, 16 bytes are refused and nothing changes; 3 bytes are accepted *)
+Example example_bus :
+  let s := run (firstn 19 example_ops) in
+  step s (OResizeBus 0 16 8) = (s, RErr TooBig) /\ snd (step s (OResizeBus 0 3 8)) = ROk /\ gbytes (run example_ops) 0 = 3.
+Proof. vm_compute. repeat split; reflexivity. Qed.
 
 (* the history is not trivial: both enum signals grew and pushed their followers *)
 Example example_final :
